@@ -1,4 +1,5 @@
 import MetadorModel.Model.Merge
+import MetadorModel.Proofs.Listing
 /-!
 # C05 — merge materialises the overlay view and continues the patch chain
 
@@ -65,5 +66,68 @@ theorem next_patch_follows_merged (ubs : List UB) (h fresh : Nat) (last m : UB)
 /-- non-vacuity: a three-container chain -/
 example : mergeUB [⟨7, 0, 100, none, some 1⟩, ⟨7, 1, 101, some 100, some 2⟩, ⟨7, 2, 102, some 101, some 3⟩] 9
     = some ⟨7, 2, 102, none, some 9⟩ := by decide
+
+/-! ## tree level: the merged container shows the overlay view of the source -/
+section tree
+open MetadorModel.Tree MetadorModel.Overlay MetadorModel.Single MetadorModel.Listing
+variable {V : Type}
+
+/-- The view of the source can be replayed parents-first (every listed node other than the
+root has its parent listed before it, as a group, and is listed once). This is a property of
+the *view* of `r`; it is what "the view is a tree, listed in pre-order" means and is checked on
+every generated history by the correspondence run (the model's `merge` would fail otherwise). -/
+def ViewReplayable (r : Rec V) : Prop := Replayable (Overlay.listing r)
+
+/-- **merge materialises the overlay view**: at every path the merged single container shows
+the kind/value and every attribute the source record shows, for any number of source
+containers, deletions and replacements. -/
+theorem merge_view (r m : Rec V) (h : ViewReplayable r) (hm : mergeCont r = .ok m) (q : Path) :
+    viewKind m q = viewKind r q ∧ ∀ k, viewAttr m q k = viewAttr r q k := by
+  by_cases hq : q = []
+  · subst hq
+    have hroot := fun k => materialise_root_attr (Overlay.listing r) h m hm (rootAttrs_nodup r) k
+    refine ⟨by rw [(hroot "").2, viewKind_root], fun k => ?_⟩
+    rw [(hroot k).1, root_attr_listing]
+  · have hkind := materialise_kind (Overlay.listing r) h m hm q hq
+    rw [aget_nonRoot _ q hq, aget_listing r q hq] at hkind
+    refine ⟨by rw [hkind]; cases viewKind r q <;> rfl, fun k => ?_⟩
+    have hattr := materialise_attr (Overlay.listing r) h m hm (listing_attrs_nodup r) q hq k
+    rw [aget_nonRoot _ q hq, aget_listing r q hq] at hattr
+    rw [hattr]
+    cases hv : viewKind r q with
+    | none => simp [viewAttr_none_of_kind_none r q hq k hv]
+    | some kd => simp [aget_attrsList]
+
+/-- the merged record consists of exactly one container -/
+theorem merge_single (r m : Rec V) (h : ViewReplayable r) (hm : mergeCont r = .ok m) :
+    m.length = 1 := by
+  obtain ⟨heq, _⟩ := materialise_eq (Overlay.listing r) h
+  rw [mergeCont, heq] at hm
+  cases hm; rfl
+
+/-- merging does not fail when the view is a tree -/
+theorem merge_succeeds (r : Rec V) (h : ViewReplayable r) : ∃ m, mergeCont r = .ok m :=
+  ⟨_, (materialise_eq (Overlay.listing r) h).1⟩
+
+/-- merging is a pure function of the source record: the source is the same value before and
+after (the model has no hidden state; on the implementation this clause is checked by hashing
+all source files and comparing dumps and `ih5_meta` of the still-open object) -/
+theorem merge_idempotent_on_view (r m m' : Rec V) (h : ViewReplayable r)
+    (hm : mergeCont r = .ok m) (h' : ViewReplayable m) (hm' : mergeCont m = .ok m') (q : Path) :
+    viewKind m' q = viewKind r q ∧ ∀ k, viewAttr m' q k = viewAttr r q k := by
+  obtain ⟨a1, a2⟩ := merge_view r m h hm q
+  obtain ⟨b1, b2⟩ := merge_view m m' h' hm' q
+  exact ⟨b1.trans a1, fun k => (b2 k).trans (a2 k)⟩
+
+/-- non-vacuity: a three-container record (set, attributes incl. a root attribute, delete,
+re-create in later patches) satisfies the hypothesis of the tree-level theorems -/
+def exRec : Rec Nat :=
+  (W.run Rec.init [.set ["a", "x"] 1, .sattr ["a"] "k" 5, .patch, .del ["a", "x"], .grp ["b"],
+    .sattr [] "r" 9, .patch, .set ["a", "y"] 2]).1
+
+example : exRec.length = 3 ∧ ViewReplayable exRec :=
+  ⟨by decide +kernel, replayableB_sound _ (by decide +kernel)⟩
+
+end tree
 
 end MetadorModel.C05
